@@ -36,6 +36,10 @@ def J(i, **kw):
     return d
 
 
+def warmup():
+    spec.warmup_numba()
+
+
 def superset_A():
     ops = [J(i) for i in range(7)]
     ops += [
@@ -182,10 +186,29 @@ def superset_G():
     return {"fluid": "water", "ops": ops}, flags, {"mode": "hydraulics"}
 
 
-SUPERSETS = {"G": superset_G, "A": superset_A, "B": superset_B, "C": superset_C, "D": superset_D, "E": superset_E,
+def superset_H():
+    """pressure controllers met from both sides: one that does not control is an open connection in both directions"""
+    ops = [J(i) for i in range(6)]
+    ops += [
+        {"op": "ext_grid", "id": "eg0", "junction": "j2", "p_bar": 5.0, "t_k": 300.0},
+        {"op": "pipe", "id": "p0", "from": "j1", "to": "j2"},
+        {"op": "press_control", "id": "pcr", "from": "j0", "to": "j1", "controlled": "j1", "p_bar": 4.5, "check_controllability": False},
+        {"op": "pipe", "id": "p1", "from": "j0", "to": "j3"},
+        {"op": "press_control", "id": "pcf", "from": "j2", "to": "j4", "controlled": "j4", "p_bar": 4.0, "check_controllability": False},
+        {"op": "pipe", "id": "p2", "from": "j4", "to": "j5"},
+        {"op": "sink", "id": "s0", "junction": "j0", "mdot": 0.1},
+        {"op": "sink", "id": "s3", "junction": "j3", "mdot": 0.1},
+        {"op": "sink", "id": "s5", "junction": "j5", "mdot": 0.2},
+    ]
+    flags = [("pcr", "control_active"), ("pcf", "control_active"), ("pcr", "in_service"), ("pcf", "in_service"),
+             ("p0", "in_service"), ("p1", "in_service"), ("p2", "in_service")]
+    return {"fluid": "water", "ops": ops}, flags, {"mode": "hydraulics"}
+
+
+SUPERSETS = {"H": superset_H, "G": superset_G, "A": superset_A, "B": superset_B, "C": superset_C, "D": superset_D, "E": superset_E,
              "F": lambda: superset_E("bidirectional")}
-QUICK_K = {"G": 8, "A": 10, "B": 9, "C": 9, "D": 9, "E": 7, "F": 7}
-THOROUGH_K = {"G": 10, "A": 14, "B": 13, "C": 11, "D": 9, "E": 9, "F": 9}
+QUICK_K = {"H": 7, "G": 8, "A": 10, "B": 9, "C": 9, "D": 9, "E": 7, "F": 7}
+THOROUGH_K = {"H": 7, "G": 10, "A": 14, "B": 13, "C": 11, "D": 9, "E": 9, "F": 9}
 CHUNK = 16
 
 
@@ -279,6 +302,24 @@ def run_pattern(sp0, flags, k, number, opts):
                     off, table, eid, st, want), table=table, expected=want, got=tag,
                     cols=st.split(":", 1)[1] if ":" in st else ""))
             pat.append(st)
+    # thermal supersets: the compiled kernels must return on the same pattern, with the same results
+    if mode in ("sequential", "bidirectional"):
+        try:
+            net3, idmap3 = spec.build(sp)
+            pp.pipeflow(net3, **dict(kw, use_numba=True))
+            # (values of the two engines are compared by C07; here: same pattern of missing results)
+            r1n, r3n = spec.results_by_id(net, idmap), spec.results_by_id(net3, idmap3)
+            for eid in r1n:
+                a_, b_ = r1n[eid], r3n.get(eid)
+                na = None if a_ is None else sorted(c for c, v in a_.items() if isinstance(v, float) and np.isnan(v))
+                nb = None if b_ is None else sorted(c for c, v in b_.items() if isinstance(v, float) and np.isnan(v))
+                if na != nb:
+                    vs.append(viol("numba_differs", "flags off %s: %s has missing results %s with use_numba=False, %s with use_numba=True" % (
+                        off, eid, na, nb), table=idmap[eid][0]))
+                    break
+        except Exception as e:
+            vs.append(viol("numba_run_failed", "flags off %s: use_numba=False returns, use_numba=True raises %s: %s" % (
+                off, type(e).__name__, str(e)[:150]), exc=type(e).__name__))
     # oracle 2: differential against the pruned network
     psp = supply.prune(sp, an)
     try:
